@@ -134,6 +134,8 @@ def smt_script(ctx, queries, models=False, bv=False):
                 return None
         out = ["(set-logic QF_BV)", "(set-option :produce-models true)"] + ctx.bvdecls
     else:
+        if getattr(ctx, "int_invalid", False):
+            raise mir.Unsupported("no integer rendering (symbolic shift amounts): only the bit-vector rendering is available")
         out = ["(set-logic ALL)", "(set-option :produce-models true)"] + ctx.decls
     for (name, pcs, goal) in queries:
         out.append("(push 1)")
